@@ -46,6 +46,13 @@ def obligations(tier):
                        bounds=("registered type" if q < 5 else "dict-kept type") + ", first input form %d" % (q % 5) + "; 3 additions from 5 modified texts (three instants "
                               "within one millisecond, one respelled, one later) x input forms; both stores: all_versions = distinct instants, get = greatest, query by "
                               "instant; composite over single-version sources"))
+    obls.append(JOB("latest_version_by_instant", "props.j_time", "job_family_latest", 600, functions=F[1:2] + ["stix2.utils.parse_into_datetime"],
+                    bounds="two dict-kept versions in both orders: every pair of canonical modified texts with %s fraction digits (symbolic fields and digits)" % (
+                        "8 combinations of 0..6" if tier == "quick" else "every combination of 0..6")))
+    obls.append(JOB("composite_latest_by_instant", "props.j_time", "job_composite_latest", 600, functions=["stix2.datastore.CompositeDataSource.get", "stix2.utils.parse_into_datetime"],
+                    stubs=["member sources answer get() with one stored dictionary (native stub)"],
+                    bounds="three members answering with dict-kept versions: every triple of canonical modified texts with %s fraction-digit combinations" % (
+                        "4" if tier == "quick" else "75")))
     obls.append(JOB("version_file_name_injective", "props.j_time", "job_filename_injective", 600, functions=F[9:10] + ["stix2.utils.format_datetime"],
                     stubs=["re.sub of a literal character class modelled as a character filter", "datetime model of props/j_time.py"],
                     bounds="two stored timestamps, all fields and microseconds symbolic, millisecond/min and millisecond/exact (thorough: also any) settings"))
